@@ -768,6 +768,213 @@ wait:
 	}
 }
 
+// the election under different probe outcomes: every probe stays in the
+// downstream for a few milliseconds; the most that are there at once is observed
+func vC13ElectCase(r *rand.Rand) map[string]any {
+	c := New(&config.Config{CacheSize: 1024})
+	defer c.Stop()
+	clock := &vC13Clock{now: vC13Base}
+	c.failure.now = clock.Now
+	g := newVC13Gen(r)
+	zone := g.names[2]
+	c.store.RecordZoneFailure(dns.Question{Name: "seed." + zone.pres(), Qtype: dns.TypeA, Qclass: dns.ClassINET}, zone.pres())
+	clock.now = vC13Base.Add(c.failure.initialTTL + 1)
+	firstLocal := r.Intn(3) != 0
+	n := 3 + r.Intn(8)
+	var calls, inFlight, maxInFlight atomic.Int32
+	stub := middleware.HandlerFunc(func(hctx context.Context, ch *middleware.Chain) {
+		call := calls.Add(1)
+		cur := inFlight.Add(1)
+		for {
+			m := maxInFlight.Load()
+			if cur <= m || maxInFlight.CompareAndSwap(m, cur) {
+				break
+			}
+		}
+		time.Sleep(4 * time.Millisecond)
+		rq := ch.Request.Msg()
+		resp := new(dns.Msg)
+		resp.SetRcode(rq, dns.RcodeServerFailure)
+		if firstLocal && call == 1 {
+			mctx, _ := middleware.EnsureResolutionAttemptGuard(hctx)
+			middleware.MarkRequestLocalFailureResponse(mctx, resp, middleware.ErrResolutionAttemptLimit)
+		} else {
+			c.store.RecordZoneFailure(rq.Question[0], zone.pres())
+		}
+		inFlight.Add(-1)
+		_ = ch.Writer.WriteMsg(resp)
+		ch.Cancel()
+	})
+	type result struct{ rcode, ede int }
+	results := make(chan result, n)
+	gate := make(chan struct{})
+	for i := 0; i < n; i++ {
+		nm := append(vC13Name{[]byte(fmt.Sprintf("e%d", i))}, zone...)
+		go func() {
+			<-gate
+			req := vC13QKey{name: nm, qtype: dns.TypeA, qclass: dns.ClassINET}.req()
+			req.SetEdns0(1232, false)
+			writer := mock.NewWriter("udp", "192.0.2.1:53000")
+			chain := middleware.NewChain([]middleware.Handler{c, stub})
+			chain.Reset(writer, req)
+			chain.Next(context.Background())
+			res := result{999, -1}
+			if msg := writer.Msg(); msg != nil {
+				res.rcode = msg.Rcode
+				if e := dnsutil.GetEDE(msg); e != nil {
+					res.ede = int(e.InfoCode)
+				}
+			}
+			results <- res
+		}()
+	}
+	close(gate)
+	served, shed := 0, 0
+	for i := 0; i < n; i++ {
+		res := <-results
+		switch {
+		case res.rcode == dns.RcodeServerFailure && res.ede == int(dns.ExtendedErrorCodeCachedError):
+			served++
+		case res.rcode == dns.RcodeServerFailure && res.ede == int(dns.ExtendedErrorCodeOther):
+			shed++
+		}
+	}
+	return map[string]any{
+		"k": map[bool]string{true: "elect-first-probe-local", false: "elect-first-probe-shared"}[firstLocal],
+		"coq": fmt.Sprintf("CaseElect %d %v %d %d %d %d", n, firstLocal, maxInFlight.Load(), calls.Load(), served, shed),
+		"nontrivial": true,
+		"desc":       map[string]any{"zone": zone.pres(), "requests": n, "first_probe_request_local": firstLocal, "max_probes_in_flight": maxInFlight.Load(), "probes_sent": calls.Load(), "served_from_failure_cache": served, "shed_by_probe_limit": shed},
+	}
+}
+
+// The wire fast path's gate.  A failure is recorded through the real ladder
+// (wire-born query, denial rung runs and misses, downstream SERVFAILs), with
+// validated NSEC proofs admitted to the denial index before the rung, between
+// rung and write-back, after the record, on or off the name's path; then the
+// same question arrives wire-born again.  Observed: did the byte path compose
+// the answer (wireFailureServed), and what the client got.  The proofs come
+// from the package's own fixtures (newDenialProofNSECFixture) and never cover
+// the failing name, so both ladders answer the cached failure.
+func vC13WireGateCase(t *testing.T, r *rand.Rand) map[string]any {
+	cfg := &config.Config{CacheSize: 1024}
+	dnssecOff := r.Intn(4) == 0
+	if dnssecOff {
+		cfg.DNSSEC = "off"
+	}
+	c := New(cfg)
+	defer c.Stop()
+	ednsH := ednsmw.New(cfg)
+	zone := "sig.test."
+	other := "other.test."
+	pairs := [][2]string{{"glib", "help"}, {"mo", "mu"}, {"ga", "gb"}}
+	stamps := map[string]int{}
+	nextStamp := 0
+	admit := func(z string) {
+		p := pairs[nextStamp%len(pairs)]
+		fixture := newDenialProofNSECFixture(t, time.Now().UTC(), "q."+z, dns.TypeA, dns.RcodeNameError, z, [2]string{p[0] + "." + z, p[1] + "." + z})
+		aggressiveNegativeMakeSignaturesPackable(fixture.msg)
+		if c.store.RecordDenialProof(fixture.msg, z, middleware.ValidatedNegativeProofNSEC, time.Time{}) {
+			nextStamp++
+			stamps[z] = nextStamp
+		}
+	}
+	idx := func() string {
+		var rows []string
+		for _, z := range []string{zone, other} {
+			if id, ok := stamps[z]; ok {
+				rows = append(rows, fmt.Sprintf("(%s,%d%%N)", vC13LabelsOf(z).coq(), id))
+			}
+		}
+		return "[" + strings.Join(rows, ";") + "]"
+	}
+	cd := r.Intn(4) == 0
+	kindQ := r.Intn(3) != 0
+	label := []string{"down", "real", "racy", "blind"}[r.Intn(4)]
+	name := label + "." + zone
+	if !kindQ {
+		name = label + ".lame." + zone
+	}
+	var how []string
+	if r.Intn(2) == 0 {
+		z := []string{zone, other}[r.Intn(2)]
+		admit(z)
+		how = append(how, "proof for "+z+" before the rung")
+	}
+	duringZone := ""
+	if r.Intn(4) == 0 {
+		duringZone = []string{zone, other}[r.Intn(2)]
+		how = append(how, "proof for "+duringZone+" during the failing resolution")
+	}
+	idxRung := ""
+	stub := middleware.HandlerFunc(func(_ context.Context, ch *middleware.Chain) {
+		idxRung = idx() // the rung has run; this is what it saw
+		if duringZone != "" {
+			admit(duringZone)
+		}
+		rq := ch.Request.Msg()
+		if !kindQ {
+			c.store.RecordZoneFailure(rq.Question[0], "lame."+zone)
+		}
+		resp := new(dns.Msg)
+		resp.SetReply(rq)
+		resp.Rcode = dns.RcodeServerFailure
+		_ = ch.Writer.WriteMsg(resp)
+		ch.Cancel()
+	})
+	wireAsk := func(qname string) (int, int) {
+		q := new(dns.Msg)
+		q.SetQuestion(qname, dns.TypeA)
+		q.RecursionDesired = true
+		q.CheckingDisabled = cd
+		q.SetEdns0(1232, false)
+		raw, err := q.Pack()
+		if err != nil {
+			panic(err)
+		}
+		req := new(middleware.Request)
+		if !req.ParseWire(raw, time.Now(), nil) {
+			panic("wire query refused")
+		}
+		w := mock.NewWriter("udp", "198.51.100.9:40000")
+		ch := middleware.NewChain([]middleware.Handler{ednsH, c, stub})
+		ch.ResetWire(w, req)
+		ch.AllowDirectPack()
+		ch.Next(context.Background())
+		rc, ede := 999, -1
+		if m := w.Msg(); m != nil && w.Written() {
+			rc = m.Rcode
+			if e := dnsutil.GetEDE(m); e != nil {
+				ede = int(e.InfoCode)
+			}
+		}
+		return rc, ede
+	}
+	first := name
+	if !kindQ {
+		first = "seed.lame." + zone // the zone failure is learned through another name
+	}
+	wireAsk(first)
+	if r.Intn(3) == 0 {
+		z := []string{zone, other}[r.Intn(2)]
+		admit(z)
+		how = append(how, "proof for "+z+" after the record")
+	}
+	idxQuery := idx()
+	before := wireFailureServed.Value()
+	rc, ede := wireAsk(name)
+	byWire := wireFailureServed.Value() > before
+	edeC := "None"
+	if ede >= 0 {
+		edeC = fmt.Sprintf("(Some %d%%N)", ede)
+	}
+	return map[string]any{
+		"k": "wire-gate",
+		"coq": fmt.Sprintf("CaseWireGate %v %v %v %s %s %s %v %d %s", cd, kindQ, dnssecOff, vC13LabelsOf(name).coq(), idxRung, idxQuery, byWire, rc, edeC),
+		"nontrivial": len(how) > 0,
+		"desc":       map[string]any{"name": name, "cd": cd, "failure_kind_question": kindQ, "dnssec_off": dnssecOff, "denial_index_changes": how, "index_at_rung": idxRung, "index_at_query": idxQuery, "answered_by_byte_path": byWire, "rcode": rc, "ede": ede},
+	}
+}
+
 func TestVerifC13Pipe(t *testing.T) {
 	tr := vC13Open(t)
 	defer tr.f.Close()
@@ -779,5 +986,11 @@ func TestVerifC13Pipe(t *testing.T) {
 	}
 	for i := 0; i < n/12+6; i++ {
 		tr.emit(vC13ProbeCase(r))
+	}
+	for i := 0; i < n/10+8; i++ {
+		tr.emit(vC13ElectCase(r))
+	}
+	for i := 0; i < n/5+10; i++ {
+		tr.emit(vC13WireGateCase(t, r))
 	}
 }
